@@ -119,7 +119,16 @@ def execute(plan, perturb, seed=None):
             designer_factory=factory)
       else:
         state_factory = benchmark_state.DesignerBenchmarkStateFactory(experimenter=exp, designer_factory=factory)
-      state = state_factory(seed=seed)
+      # seeds often come out of numpy (SeedSequence.generate_state, rng.integers): integers that are not `int`
+      typed_seed = {'np.int64': _np.int64, 'np.uint32': _np.uint32}.get(plan.get('seed_type'), int)(seed)
+      state = state_factory(seed=typed_seed)
+      prior = []
+      if plan.get('prior_study'):
+        # a seeded prior study (its own seeded state + runner) attached before the main protocol
+        prior = [benchmark_runner.EvaluateAndAddPriorStudy(
+            benchmark_runner=benchmark_runner.BenchmarkRunner(
+                benchmark_subroutines=[benchmark_runner.GenerateAndEvaluate(2)], num_repeats=2),
+            benchmark_state_factory=state_factory, study_guid=plan['prior_study'], seed=int(seed) + 5)]
       if plan['protocol'] == 'generate_and_evaluate':
         subs = [benchmark_runner.GenerateAndEvaluate(plan['batch'])]
       elif plan['protocol'] == 'fill_then_partial':
@@ -133,6 +142,8 @@ def execute(plan, perturb, seed=None):
         # another seeded study in this process
         other = state_factory(seed=seed + 77)
         benchmark_runner.BenchmarkRunner(benchmark_subroutines=subs, num_repeats=3).run(other)
+      if prior:
+        benchmark_runner.BenchmarkRunner(benchmark_subroutines=prior, num_repeats=1).run(state)
       if plan.get('runner_style') == 'repeats':
         # one runner repeating the protocol by itself
         benchmark_runner.BenchmarkRunner(benchmark_subroutines=subs, num_repeats=plan['repeats']).run(state)
@@ -141,6 +152,8 @@ def execute(plan, perturb, seed=None):
           if perturb:
             _perturb(kinds, rep + 1, clk)
           benchmark_runner.BenchmarkRunner(benchmark_subroutines=subs, num_repeats=1).run(state)
+      for guid, st in sorted(getattr(state.algorithm.supporter, 'prior_studies', {}).items()):
+        out.append(['prior', guid, [repr(twin.pkey(t)) for t in st.trials]])
       for t in state.algorithm.supporter.trials:
         fm = None
         if t.final_measurement is not None:
@@ -200,7 +213,13 @@ class C14(runner.Check):
                   batch=rng.choice([1, 2, 3, 5]), partial=rng.choice([1, 2]), repeats=rng.choice([3, 5, 8]),
                   state_factory=rng.choice(['designer', 'designer', 'experimenter_designer']),
                   runner_style=rng.choice(['loop', 'loop', 'repeats']),
-                  factory_style=rng.choice(['explicit', 'explicit', 'kwargs']))
+                  factory_style=rng.choice(['explicit', 'explicit', 'kwargs']),
+                  seed_type=rng.choice(['int', 'int', 'np.int64', 'np.uint32']),
+                  prior_study=rng.choice([None, None, None, 'prior', 'owners/x/studies/prior']))
+      if plan['prior_study']:
+        plan['fresh_process'] = plan['fresh_process'] or rng.random() < 0.5
+      if plan['seed'] >= 2**31:
+        plan['seed_type'] = 'int'
       if name == 'cmaes':
         plan['repeats'] = 3
     else:
